@@ -160,6 +160,17 @@ class Compiled:
         return self.to_linear(self.evaluate_raw(sc, rows, nvars))
 
 
+def bind_compiler(compiler, val: dict):
+    """Write a valuation into whatever slices the given compiler has registered for its tensors."""
+    with torch.no_grad():
+        for t, a in val.items():
+            if not isinstance(t, P.TensorParameter) or not compiler.state.has_compiled_parameter(t):
+                continue
+            tp, idx = compiler.state.retrieve_compiled_parameter(t)
+            src = torch.from_numpy(np.ascontiguousarray(np.asarray(a))).to(tp._ptensor.dtype)
+            tp._ptensor.data[idx].copy_(src)
+
+
 def close(a, b, scale=None, rtol=1e-9, atol=1e-12):
     a = np.asarray(a)
     b = np.asarray(b)
